@@ -57,7 +57,8 @@ impl ProbeDriver {
     self.calls += 1;
     // a schedule has at most 17 wake-ups and a few dozen events: thousands of driver calls mean that the loop spins (for instance it never reads a device to Busy)
     if self.calls > 4000 {
-      if !self.spun { self.spun = true; self.viol("C10", "the loop made more than 4000 driver calls for a schedule of at most 17 wake-ups: it spins instead of waiting".to_string()); }
+      // a loop that spins instead of waiting serves neither the timer (C11) nor the tablet switch (C12) any more, and is not "waiting for the next notification" (C10)
+      if !self.spun { self.spun = true; for p in ["C10", "C11", "C12"] { self.viol(p, "the loop made more than 4000 driver calls for a schedule of at most 17 wake-ups: it spins instead of going back to waiting".to_string()); } }
       self.failed = true; self.pending = None;
       return Err("injected failure".to_string());
     }
